@@ -1,4 +1,4 @@
-import IcyVerif.Model.Sauce
+import IcyVerif.Model.SauceLoad
 import IcyVerif.Drv.Util
 /-! Line protocol for the SAUCE model (`sauce <op> …`), see harness/src/c11.rs -/
 namespace IcyVerif.Drv.Sauce
@@ -44,6 +44,18 @@ def doExtract (dateOk : Bool) (data : List Nat) : String :=
   | .ok (some s), .ok (c, _) => showSauce s c.length
   | .ok (some _), .err e => "err:" ++ errName e
 
+/-- `Buffer::from_bytes("….asc", file)` as far as the probe of c11load.rs can see it: when the content handed to the
+    loader lies inside the probe-alphabet prefix of the file, the content itself and the number of comment lines of the
+    record the loader receives (`-` = none); `beyond` otherwise (the .asc loader is not modelled here) -/
+def doSplit (dateOk : Bool) (file : List Nat) : String :=
+  match fromBytesSplit (fun _ => dateOk) file with
+  | .ok (c, s) =>
+    if c.length ≤ IcyVerif.SauceLoad.dPrefix file then
+      "text " ++ toHex c ++ " s=" ++ (match s with | none => "-" | some s => toString s.comments.length)
+    else "beyond"
+  | .err e => "err:" ++ errName e
+  | .panic _ => "panic"
+
 def doWrite (k : Nat) (b : BufInfo) (date : List Nat) (vecLen : Nat) : String :=
   match writeSauceInfo k b date (List.replicate vecLen 0) with
   | .ok v => "ok " ++ toHex (v.drop vecLen)
@@ -76,6 +88,9 @@ def handle : List String → String
     | _, _, _, _, _, _, _, _, _, _, _, _, _, _, _ => "bad-op"
   | ["extract", ok, h] => match flag? ok, parseHex h with
     | some ok, some d => doExtract ok d
+    | _, _ => "bad-op"
+  | ["split", ok, h] => match flag? ok, parseHex h with
+    | some ok, some d => doSplit ok d
     | _, _ => "bad-op"
   | ["str", len, pad, h] => match len.toNat?, pad.toNat?, parseHex h with
     | some len, some pad, some d => doStr len pad d
